@@ -145,6 +145,11 @@ fn base_tree() -> tree::TreeSpec {
 
 /// One C-API case: fresh tree, recorded call, canonical result.
 fn run_case(ctx: &mut Ctx, id: &str, spec: &tree::TreeSpec, mut args: CArgs, fdclass: &str) {
+    // `--fd0-free`: the call is made with descriptor 0 closed (a daemon, a program started with `<&-`)
+    let fd0 = crate::FD0_FREE.load(std::sync::atomic::Ordering::Relaxed);
+    if fd0 {
+        crate::fd0_occupy();
+    }
     let (top, rootdir) = crate::setup_case_dir(ctx, "ccase", spec);
     let labels = tree::Labels::of_tree(spec, &rootdir);
     let c = CString::new(rootdir.as_os_str().as_encoded_bytes()).unwrap();
@@ -161,7 +166,7 @@ fn run_case(ctx: &mut Ctx, id: &str, spec: &tree::TreeSpec, mut args: CArgs, fdc
         _ => {}
     }
     let mut s = String::new();
-    s.push_str(&format!("case {id}\nmeta seed=0 suite=capi\n"));
+    s.push_str(&format!("case {id}\nmeta seed=0 suite=capi{}\n", if fd0 { " fd0free=1" } else { "" }));
     s.push_str(&format!("tree {}\n", spec.entries.len()));
     s.push_str(&spec.lines());
     s.push_str(&args.line(fdclass));
@@ -177,9 +182,16 @@ fn run_case(ctx: &mut Ctx, id: &str, spec: &tree::TreeSpec, mut args: CArgs, fdc
         verif::openat2_is_supported() as u8
     ));
     let before_snap = tree::snapshot(&top);
+    if fd0 {
+        unsafe { libc::close(0) };
+    }
     let before = ops::fd_table();
     let (r, log) = ops::recorded(None, || call(&args));
     let after = ops::fd_table();
+    if fd0 && !matches!(&r, Ok((0, _)) if returns_fd(args.func)) {
+        unsafe { libc::close(0) };
+        crate::fd0_occupy();
+    }
     s.push_str(&crate::fmt::transcript(&log));
     let mut ret_fd: Option<OwnedFd> = None;
     match r {
